@@ -112,7 +112,8 @@ EXPANDED_TIES = ("RxModel.GenTie.Subject", "RxModel.GenTie.SubjectThreads", "RxM
                  "RxModel.GenTie.MergeAllThreads") + tuple(
     f"RxModel.GenTie.{w}{m}{t}" for w in ("", "Wiring") for m in ("Delay", "ObserveOn") for t in ("", "Threads")) + (
     "RxModel.GenTie.Debounce", "RxModel.GenTie.Throttle", "RxModel.GenTie.WiringDebounce", "RxModel.GenTie.WiringThrottle",
-    "RxModel.GenTie.Scheduler", "RxModel.GenTie.DelaySubscription", "RxModel.GenTie.Conversions")
+    "RxModel.GenTie.Scheduler", "RxModel.GenTie.DelaySubscription", "RxModel.GenTie.Conversions",
+    "RxModel.GenTie.TimeSourcesModel")
 
 
 def expanded_source():
